@@ -33,6 +33,10 @@ for name in names:
         print(name, 'skipped (does not apply any more)', flush=True)
         continue
     props = list(meta.get('checks_run', {})) or [meta['breaks_property']]
+    if os.environ.get('RESEED_PRIMARY'):
+        # only the check that is expected to catch it: the property it breaks, or the first check that caught it
+        caught = [q for q, c in meta.get('checks_run', {}).items() if c.get('caught')]
+        props = [meta['breaks_property']] if meta['breaks_property'] in caught or not caught else caught[:1]
     for p in props:
         clean_repo()
         r = subprocess.run(['git', '-C', D + '/repo', 'apply', os.path.join(dst, 'patch.diff')])
@@ -52,6 +56,9 @@ for name in names:
             rc = r.returncode
         finally:
             clean_repo()
+        if os.environ.get('RESEED_DRY'):
+            print(name, p, rc, [l[:120] for l in lines if not l.startswith('KNOWN')][:2], flush=True)
+            continue
         replay = None
         for m in re.finditer(r'replay=(\S+)', '\n'.join(lines)):
             if os.path.exists(m.group(1)) and replay is None:
@@ -67,5 +74,6 @@ for name in names:
             'with_failing_input': rc == 1 and viol and not all('no-failing-input-found' in l for l in lines if l.startswith('VIOLATION')),
             'replay_kind': (replay or {}).get('kind'), 'relation': (replay or {}).get('relation_or_op')}
         print(name, p, rc, [l[:120] for l in lines if not l.startswith('KNOWN')][:2], flush=True)
-    json.dump(meta, open(mp, 'w'), indent=1)
+    if not os.environ.get('RESEED_DRY'):
+        json.dump(meta, open(mp, 'w'), indent=1)
 print('LANE-DONE', D, flush=True)
